@@ -371,6 +371,54 @@ fn run_op(st: &mut St, a: &[&str]) -> R {
             Ok(String::new())
         }
         "dump" => Ok(dump(&st.trees[cur])),
+        // the two compositions of the command-line tool, written against the library exactly as main.rs does
+        "cli_collapse" => {
+            let threshold = dec_len(a[1]).unwrap();
+            let exclude_tips = a[2] == "1";
+            let tree = &mut st.trees[cur];
+            let root = match tree.get_root() {
+                Ok(r) => r,
+                Err(e) => return Err(terr(&e)),
+            };
+            let order = match tree.preorder(&root) {
+                Ok(o) => o,
+                Err(e) => return Err(terr(&e)),
+            };
+            for node_idx in order.iter() {
+                let node = tree.get_mut(node_idx).unwrap();
+                if exclude_tips && node.is_tip() {
+                    continue;
+                }
+                let parent_idx = node.parent;
+                let mut collapsed = false;
+                if let (Some(len), Some(parent)) = (node.parent_edge, parent_idx) {
+                    if len < threshold {
+                        node.set_parent(parent, Some(0.0));
+                        collapsed = true;
+                    }
+                }
+                if collapsed {
+                    let parent = tree.get_mut(&parent_idx.unwrap()).unwrap();
+                    parent.set_child_edge(node_idx, Some(0.0))
+                }
+            }
+            Ok(String::new())
+        }
+        "cli_remove" => {
+            let tree = &mut st.trees[cur];
+            for tok in a[1..].iter() {
+                let name = dec_str(tok).unwrap();
+                let node = tree.get_by_name(&name).unwrap();
+                if !node.is_tip() {
+                    panic!("not a tip");
+                }
+                let id = node.id;
+                if let Err(e) = tree.prune(&id) {
+                    return Err(terr(&e));
+                }
+            }
+            tr(tree.compress(), |_| String::new())
+        }
         "set_name" => match st.trees[cur].get_mut(&usz(a[1])) {
             Ok(n) => {
                 n.set_name(dec_str(a[2]).unwrap());
